@@ -148,6 +148,12 @@ def run_check(pid, cfg, tier, seed, args, t0):
                 engine_errors.append('%s: no feasible path reaches an exit: contradictory preconditions' % target)
             for clause, slot in rep.obligations.items():
                 oid = '%s.%s' % (target, clause)
+                short = '%s.%s' % (target.split(':')[-1].split('.')[-1], clause)
+                inc = cfg.get('clause_include')
+                if inc is not None and not any(re.search(p, short) for p in inc):
+                    continue
+                if any(re.search(p, short) for p in cfg.get('clause_exclude', [])):
+                    continue
                 for b, n in slot['backends'].items():
                     by_backend[b] = by_backend.get(b, 0) + n
                 ob = {'id': oid, 'status': slot['status'], 'vcs': slot['n'], 'kind': slot['kind'],
@@ -164,7 +170,7 @@ def run_check(pid, cfg, tier, seed, args, t0):
     bounded = []
     if cfg.get('native'):
         if cfg.get('ground', True):
-            res = run_native(cfg['native'], 'ground', {'tier': tier, 'seed': seed})
+            res = run_native(cfg['native'], 'ground', dict(cfg.get('native_arg', {}), tier=tier, seed=seed))
             if not res.get('ok'):
                 engine_errors.append('ground: ' + res.get('error', '?'))
             else:
@@ -178,7 +184,7 @@ def run_check(pid, cfg, tier, seed, args, t0):
                                          'canon': item.get('canon') or json.dumps(item.get('witness'), sort_keys=True),
                                          'detail': item['detail'], 'case': item})
         if cfg.get('bounded', True):
-            res = run_native(cfg['native'], 'bounded', {'tier': tier, 'seed': seed})
+            res = run_native(cfg['native'], 'bounded', dict(cfg.get('native_arg', {}), tier=tier, seed=seed))
             if not res.get('ok'):
                 engine_errors.append('bounded: ' + res.get('error', '?'))
             else:
